@@ -214,11 +214,33 @@ pub fn build(e: &mut Ent, o: &Opts) -> ElfSpec {
         if e.chance(1, 3) {
             off &= !3;
         }
-        let mut entries = vec![];
+        let mut entries: Vec<u32> = vec![];
+        let got_addr = segs[si].vaddr + off as u32;
         for k in 0..ngot {
-            let val = match e.below(5) {
+            let val = match e.below(7) {
                 0 => e.pick(&[0u32, 1, 0x00be96ff, 0x00be9700, 0x00be9701, 0xffbe96ff, 0x7fbe9700, 0xff000000, 0x0000ffff, 0x00010000]),
                 1 => e.below(0x2000),
+                // values related to the table itself and to the other entries (what a real GOT holds are image
+                // addresses - also of GOT words - and a loader that keeps books by value or by address confuses them):
+                // the image-relative or the loaded address of some entry of this table, an earlier entry's value again,
+                // its relocated value, its value minus the base, the base itself, a segment's address
+                2 => {
+                    let i = e.below(ngot as u32);
+                    let a = got_addr + 4 * i;
+                    if e.chance(1, 2) { a } else { a.wrapping_add(BASE) }
+                }
+                3 if k > 0 => {
+                    let prev = entries[e.below(k as u32) as usize];
+                    match e.below(3) {
+                        0 => prev,
+                        1 => prev.wrapping_add(BASE),
+                        _ => prev.wrapping_sub(BASE),
+                    }
+                }
+                4 if e.chance(1, 2) => {
+                    let sv = segs[e.pick(&loads)].vaddr;
+                    e.pick(&[BASE, sv, sv.wrapping_add(BASE), BASE + 4, BASE.wrapping_neg()])
+                }
                 _ => e.u32(),
             };
             // file value + base stays a natural number below 2^32
